@@ -1,9 +1,22 @@
-(* C03: no premature verdicts.  PARTIAL in the same way as C02: the statement is the
-   "definitive" clause of the one-step property ExtOK. *)
-From Sipsp Require Import Harness Resume.
+(* C03: no premature verdicts.  The statement is the "definitive" clause of the one-step
+   property ExtOK (first theorem).  PARTIAL in the same way as C02: discharged for SkipQuoted,
+   ParseCallIDVal, ParseUIntVal / ParseExpiresVal (every buffer, suffix, offset, object state). *)
+From Sipsp Require Import Harness Resume Ext ExtLeaf.
 Theorem C03_definitive_results_are_final :
   forall (S : Type) (P : list byte -> N -> S -> res S) (obs : S -> list Z) (Inv : N -> S -> Prop),
   ExtOK P obs Inv ->
   forall b x k s0 o e s, Inv k s0 -> k <= nnat (length b) -> P b k s0 = Done o e s -> e <> EMore ->
     req obs (P (b ++ x) k s0) (Done o e s).
 Proof. exact (fun S P obs Inv H b x k s0 o e s => no_premature_verdict P obs Inv H b x k s0 o e s). Qed.
+
+Theorem C03_skip_quoted : forall b x k o e s, k <= nnat (length b) ->
+  skip_quoted b k = Done o e s -> e <> EMore -> req (fun _ : unit => []) (skip_quoted (b ++ x) k) (Done o e s).
+Proof. exact (fun b x k o e s => no_premature_verdict _ _ _ quoted_ExtOK b x k tt o e s I). Qed.
+
+Theorem C03_callid : forall b x k s0 o e s, k <= nnat (length b) ->
+  parse_callid b k s0 = Done o e s -> e <> EMore -> req obs_callid (parse_callid (b ++ x) k s0) (Done o e s).
+Proof. exact (fun b x k s0 o e s => no_premature_verdict _ _ _ callid_ExtOK b x k s0 o e s I). Qed.
+
+Theorem C03_uint_expires : forall b x k s0 o e s, k <= nnat (length b) ->
+  parse_uint b k s0 = Done o e s -> e <> EMore -> req obs_uint (parse_uint (b ++ x) k s0) (Done o e s).
+Proof. exact (fun b x k s0 o e s => no_premature_verdict _ _ _ uint_ExtOK b x k s0 o e s I). Qed.
